@@ -223,6 +223,12 @@ Definition is_early (f : final) : bool :=
   | _ => false
   end.
 
+(* the content-length test of the internal server lets the request through *)
+Definition clen_ok (cfg : config) (env : environ) : Prop :=
+  c_internal cfg = false \/
+  exists z, e_clen env = CLNum z /\
+            (negb (Z.eqb z 0) && Z.ltb 0 (c_max_len cfg) && Z.ltb (c_max_len cfg) z) = false.
+
 Definition set_identity_headers (env : environ) (ru xru : pystr) : environ :=
   {| e_method := e_method env; e_path_info := e_path_info env; e_fwd_for := e_fwd_for env;
      e_fwd_host := e_fwd_host env; e_fwd_proto := e_fwd_proto env; e_fwd_server := e_fwd_server env;
